@@ -102,7 +102,7 @@ def blocked_spans(log, nid):
 
 def check_case(case, counters, sets):
     ar = asyncrun.run_async(case)
-    if ar.stop in ('iter-cap', 'vt-cap'):
+    if ar.stop in ('iter-cap', 'vt-cap', 'watchdog'):
         return ar, None
     viols, seen = [], set()
 
